@@ -116,12 +116,15 @@ def degenerate_stream(res, rng):
     from common import lean_batch, sexpr, tree_str
     raw = [mc_common.norm(x) for x in lean_batch(['CTLS|%s|%s' % (K.enc(), sexpr(t)) for K, t in cases])]
     truth = [mc_common.norm(x) for x in lean_batch(['CTLS|%s|%s' % (K.enc(), sexpr(normalise(t))) for K, t in cases])]
-    known_live, known_hits, wrong, infidel = False, 0, 0, 0
+    kf_open = any(k['id'] == 'KF-C03-a' for k in known_findings('C03'))
+    known_live = kf_open and any(t == KF_WITNESS and a != tr for (K, t), a, tr in zip(cases, impl, truth))
+    known_hits, wrong, infidel = 0, 0, 0
     for (K, t), a, m, tr in zip(cases, impl, raw, truth):
         if a != tr:
-            if has_both_empty(t):
+            # excused by KF-C03-a only while that finding is open and its witness still fails, for a set-valued answer
+            # that the model (which follows the code) reproduces, on a formula containing both Or() and And()
+            if known_live and has_both_empty(t) and a.startswith('OK') and a == m:
                 known_hits += 1
-                known_live = known_live or t == KF_WITNESS
                 continue
             wrong += 1
             if wrong <= 3:
